@@ -3,7 +3,7 @@ import json, os
 from common import *
 import core, c01
 
-REL_KEYS = {"report": "report-differs-from-record", "status": "file-status-law", "partition": "partition-law",
+REL_KEYS = {"full": "check-differs-from-specification (kind / custom message / from / to of a recorded check)", "report": "report-differs-from-record", "status": "file-status-law", "partition": "partition-law",
             "report-badjson": "report-not-json", "report-panic": "report-builder-panic", "report-err": "report-error"}
 
 
@@ -60,10 +60,11 @@ def run(tier):
         raise ToolError("MC_Report: combination laws fail on the specification")
     res.add("states", r["distinct"])
     res.add("transitions", r["states"])
-    report_trace(res, tier, 1200 if tier == "quick" else 15000, ["core", "full"], ["report", "status", "partition"])
+    report_trace(res, tier, 1200 if tier == "quick" else 15000, ["core", "full"], ["report", "status", "partition", "full"])
     res.cov["rule"] = ("MC_Report: union/status laws over all combinations of three abstract reports; R: random programs - the "
                        "library's structured report must equal GuardReport.Simplify of the record of the same run, obey the "
-                       "partition and status laws against the evaluated (rule, status) list")
+                       "partition and status laws against the evaluated (rule, status) list; every recorded check (kind, custom message, from, to) "
+                       "equals the one the specification derives")
     return res.finish()
 
 
